@@ -18,7 +18,8 @@ VARIABLES l, bad, dtotal
 tvars == <<vars, l, bad, dtotal>>
 
 MkInst(e) == [P |-> e.P, m |-> "trace", Fn |-> e.Fn, Fd |-> e.Fd, pat |-> "trace",
-              K |-> Len(e.H), N |-> Len(e.H[1]), H |-> e.H, A |-> e.A, w |-> e.w, reads |-> e.reads]
+              K |-> Len(e.H), N |-> Len(e.H[1]), H |-> e.H, A |-> e.A, w |-> e.w, reads |-> e.reads,
+              tile |-> IF "tile" \in DOMAIN e THEN e.tile ELSE 1]      \* CallModel!Tile: a long locus
 
 Mul1e6(x) == BnMulSmall(BnMulSmall(x, 1000), 1000)
 Scaled(x, scale) == IF scale = 1000000 THEN Mul1e6(x) ELSE BnMulSmall(x, scale)
